@@ -224,6 +224,7 @@ ScopeShapes(body) ==
                Elem("e", <<Attr("slot:", "x", SV("y")), Attr("slot:", "y", SV("x"))>>, body)>>)>>,
       <<For(EV(Id("l")), "x", "index", "", <<Elem("dyn-c", <<Attr("plain", "sv-x", EV(Id("x")))>>,
              <<Elem("c", <<Attr("slot:", "x", SV("index"))>>, body)>>)>>)>> }
+WxsMReset == [n |-> WxsM.n, reset |-> TRUE, members |-> WxsM.members]
 WxsLate == [n |-> "zz", late |-> TRUE, members |-> << <<"k", VS("Zk")>> >>]
 (* a module referred to by path next to an inline one, in both orders of declaration: each name denotes ITS module, in
    the generated code and in the printed text *)
@@ -235,6 +236,15 @@ F6 == {FileW(<<>>, <<>>, r) : r \in ScopeShapes(ProbeAll)} \cup TwoKinds
       (* a script module added after parsing, by name, through the group API: the scopes keep their meaning *)
       \cup {FileW(w, <<>>, r) : r \in ScopeShapes(ProbeAll), w \in {<<WxsLate>>, <<WxsM, WxsLate>>}}
       \cup {FileW(<<WxsM>>, <<>>, r) : r \in ScopeShapes(ProbeAll)}
+      (* a scope variable - a script module, a list item under either name - as the WHOLE data of a template reference
+         (written `data="{{ (x) }}"`: without the parentheses it would be the object literal {x: x}) *)
+      \cup { FileW(<<WxsM>>, <<[n |-> "t", ch |-> <<Text(<<S("["), P(Id("k")), S("|"), P(Id("x")), S("]")>>)>>]>>, r) :
+                r \in { <<TmplIs(SV("t"), EV(Id("m")))>>,
+                        <<For(EV(Arr(<<Item(Id("o"))>>)), "x", "index", "", <<TmplIs(SV("t"), EV(Id("x")))>>)>>,
+                        <<For(EV(Arr(<<Item(Id("o"))>>)), "item", "index", "", <<TmplIs(SV("t"), EV(Id("item")))>>)>> } }
+      (* the content of an EXISTING inline module set again through the group API (a hot update of the script): no
+         module is added, so no scope moves *)
+      \cup {FileW(w, <<>>, r) : r \in ScopeShapes(ProbeAll), w \in {<<WxsMReset>>, <<WxsMReset, WxsLate>>}}
       (* the same scope shapes inside the body of a template definition (which sees script modules and its own
          data only), in a file with and without a script module *)
       \cup {FileW(w, <<[n |-> "t", ch |-> r]>>,
